@@ -2,6 +2,7 @@ package main
 
 import (
 	"fmt"
+	"strings"
 	"time"
 
 	"github.com/pion/transport/v3/vnet"
@@ -40,6 +41,7 @@ func c15scenario(c c15cfg) *explore.Scenario {
 		var sentAt []time.Duration
 		var queued []string
 		finished := false
+		closeBegun := false
 		rate2, burst2 := c.rate, c.burst
 		var setStart, setEnd time.Duration = -1, -1
 		_ = setStart
@@ -48,7 +50,15 @@ func c15scenario(c c15cfg) *explore.Scenario {
 			if err != nil {
 				panic(err)
 			}
-			if c.setter != "" && c.setter != "close" {
+			if c.setter == "close-concurrent" {
+				// Close at any point of the arrivals: whoever arrives afterwards may wait for ever (the filter is
+				// dead), but nothing may overtake, be duplicated or exceed the envelope
+				zzvsched.GoNamed("closer", func() {
+					closeBegun = true
+					_ = f.Close()
+				})
+			}
+			if c.setter != "" && c.setter != "close" && c.setter != "close-concurrent" {
 				zzvsched.GoNamed("setter", func() {
 					setStart = zzvsched.Elapsed()
 					if c.setter == "rate" {
@@ -105,7 +115,7 @@ func c15scenario(c c15cfg) *explore.Scenario {
 			if ex.HorizonHit {
 				return out + " HORIZON", nil
 			}
-			if !finished {
+			if !finished && !closeBegun {
 				return out, &explore.Violation{Sig: "C15 blocked", Msg: pre + fmt.Sprint("arrival path blocked: ", ex.Parked)}
 			}
 			// in-order duplicate-free unmodified subsequence
@@ -137,14 +147,17 @@ func c15scenario(c c15cfg) *explore.Scenario {
 					// the change had returned before the first datagram of the interval was even
 					// handed to the filter (its refill-and-drain step is then entirely after it)
 					r, b := c.rate, c.burst
-					if c.setter != "" && c.setter != "close" && setEnd >= 0 && setEnd < sentAt[idx[i]] {
+					if c.setter != "" && !strings.HasPrefix(c.setter, "close") && setEnd >= 0 && setEnd < sentAt[idx[i]] {
 						r, b = rate2, burst2
 					}
 					allowed := float64(b) + float64(r)/8*(tj-ti).Seconds()
 					if float64(sum) > allowed+1e-6 {
-						return out, &explore.Violation{Sig: "C15 envelope-exceeded" + map[bool]string{true: " after-reconfiguration", false: ""}[c.setter != "" && c.setter != "close"], Msg: pre + fmt.Sprintf("%d bytes were forwarded in the %v between %v and %v; burst + rate x interval allows %.0f", sum, tj-ti, ti, tj, allowed)}
+						return out, &explore.Violation{Sig: "C15 envelope-exceeded" + map[bool]string{true: " after-reconfiguration", false: ""}[c.setter != "" && !strings.HasPrefix(c.setter, "close")], Msg: pre + fmt.Sprintf("%d bytes were forwarded in the %v between %v and %v; burst + rate x interval allows %.0f", sum, tj-ti, ti, tj, allowed)}
 					}
 				}
+			}
+			if !finished {
+				return out, nil // an arrival waits on the closed filter: what is still queued cannot be inspected
 			}
 			// discards only when the byte queue is full
 			fwd := map[int]int{} // arrival index -> position in rec.Got
@@ -257,6 +270,7 @@ func init() {
 					out = append(out, c15scenario(c15cfg{rate: r, burst: b, queue: 50000, n: n - 1, setter: "burst", bound: 1}))
 					out = append(out, c15scenario(c15cfg{rate: r, burst: b, queue: 50000, n: n - 1, setter: "burst-down-up", bound: 1}))
 					out = append(out, c15scenario(c15cfg{rate: r, burst: b, queue: 50000, n: n - 1, setter: "close", bound: 2}))
+					out = append(out, c15scenario(c15cfg{rate: r, burst: b, queue: 50000, n: n - 1, setter: "close-concurrent", bound: 1}))
 				}
 			}
 			// long regular streams: gaps that give a fractional per-arrival credit in every direction
@@ -274,7 +288,7 @@ func init() {
 			}
 			return out
 		},
-		Rule: "rates {8 kbit/s, 1 Mbit/s} x bursts {1000, 8000 B} x queue sizes {2000, 50000 B} x every arrival script of 3 (thorough 4) datagrams over gaps {0,1ms,99ms,101ms,1s} and sizes {0,1,B/2,B,B+1}, optionally with a concurrent Set(rate/4) or Set(burst/4) placed at every scheduling point, or with Close called right behind the last arrival while the loop may still be forwarding; every pair of forwarded datagrams bounds an interval for which the byte count is compared with burst + rate x length",
+		Rule: "rates {8 kbit/s, 1 Mbit/s} x bursts {1000, 8000 B} x queue sizes {2000, 50000 B} x every arrival script of 3 (thorough 4) datagrams over gaps {0,1ms,99ms,101ms,1s} and sizes {0,1,B/2,B,B+1}, optionally with a concurrent Set(rate/4) or Set(burst/4) placed at every scheduling point, or with Close called right behind the last arrival while the loop may still be forwarding, or from a separate thread at any point of the arrivals; every pair of forwarded datagrams bounds an interval for which the byte count is compared with burst + rate x length",
 		Assumptions: []string{"across a reconfiguration the larger rate/burst applies unless the change completed before the interval began (most lenient sound reading)",
 			"a discard counts as 'queue full' when queued bytes + packet length reach the configured queue size"}})
 }
